@@ -217,10 +217,10 @@ class Runner:
         if missing and not self.errors:
             self.inconclusive.append('vacuity: no feasible path reached case class(es) %s' % missing)
         code = 0
-        if self.errors:
-            code = 2
-        elif self.violations:
+        if self.violations:          # a violation replayed natively stands whatever else went wrong in other jobs
             code = 1
+        elif self.errors:
+            code = 2
         elif self.inconclusive or self.cex_unconfirmed:
             code = 3
         wall = round(time.time() - self.t0, 2)
